@@ -174,14 +174,25 @@ func parseVer(s string) *string {
 
 var errWriter = errors.New("writer failed")
 
-// capWriter has room for cap bytes; mode 0: partial accept then fail, mode 1: reject whole write
+// capWriter has room for cap bytes; mode 0: partial accept then fail, mode 1: reject whole write,
+// mode 2: take every write in full but report an error on the write during which the count reaches cap
+// (a legal (len(p), err) answer), later writes succeed
 type capWriter struct {
 	cap  int
 	mode int
 	buf  []byte
+	done bool
 }
 
 func (w *capWriter) Write(p []byte) (int, error) {
+	if w.mode == 2 {
+		w.buf = append(w.buf, p...)
+		if !w.done && w.cap >= 0 && len(w.buf) >= w.cap {
+			w.done = true
+			return len(p), errWriter
+		}
+		return len(p), nil
+	}
 	if w.cap < 0 || len(p) <= w.cap {
 		w.buf = append(w.buf, p...)
 		if w.cap >= 0 {
@@ -278,9 +289,9 @@ func unmarshalLoop(r io.Reader, maxCalls int) string {
 			n, ver, err := pbcmpl.Unmarshal(r, m)
 			body := "-"
 			if err == nil {
-				body = showBytes(m.Data)
+				body = outBytes(m.Data)
 			}
-			o = fmt.Sprintf("%d:%s:%s:%s", n, showBytes([]byte(ver)), pbErrName(err), body)
+			o = fmt.Sprintf("%d:%s:%s:%s", n, outBytes([]byte(ver)), pbErrName(err), body)
 			ok = err == nil
 		}()
 		outs = append(outs, o)
@@ -311,7 +322,7 @@ func init() {
 		}
 		w := &capWriter{cap: int(mustI64(a[4])), mode: int(mustI64(a[5]))}
 		n, err := pbcmpl.Marshal(w, msg)
-		return fmt.Sprintf("%d,%s,%s,%d,%d", n, pbErrName(err), showBytes(w.buf), pbcmpl.Size(msg), pbcmpl.HeaderSize(msg))
+		return fmt.Sprintf("%d,%s,%s,%d,%d", n, pbErrName(err), outBytes(w.buf), pbcmpl.Size(msg), pbcmpl.HeaderSize(msg))
 	})
 	reg("pbs", func(a []string) string {
 		stream := parseBytes(a[4])
@@ -332,7 +343,7 @@ func init() {
 		if h == nil {
 			return fmt.Sprintf("%d:x:0:0:%s", n, pbErrName(err))
 		}
-		return fmt.Sprintf("%d:%s:%d:%d:%s", n, showBytes([]byte(h.GetVersion())), h.GetHeaderSize(), h.GetBodySize(), pbErrName(err))
+		return fmt.Sprintf("%d:%s:%d:%d:%s", n, outBytes([]byte(h.GetVersion())), h.GetHeaderSize(), h.GetBodySize(), pbErrName(err))
 	})
 	// pbrt kind ver payload: Marshal then Unmarshal of a real protobuf message; the decoded
 	// message must equal the original (proto.Equal) -- output: n,ver,err,equal,n2
@@ -356,6 +367,6 @@ func init() {
 		default:
 			eq = proto.Equal(msg, out)
 		}
-		return fmt.Sprintf("%d,%s,%s,%v,%d,%d", n, showBytes([]byte(ver)), pbErrName(err), eq, n2, buf.Len())
+		return fmt.Sprintf("%d,%s,%s,%v,%d,%d", n, outBytes([]byte(ver)), pbErrName(err), eq, n2, buf.Len())
 	})
 }
